@@ -36,6 +36,7 @@ pub fn run(ctx: &mut Ctx, prop: &str) {
             }
         }
         "C19" => all(ctx, prop, c19_case),
+        "C13" => all(ctx, prop, c13_case),
         _ => {}
     }
 }
@@ -160,6 +161,9 @@ fn c11_case(ctx: &mut Ctx, id: &str, rng: &mut Rng, spec: &Spec, w: Which) {
 }
 fn c19_case(ctx: &mut Ctx, id: &str, rng: &mut Rng, spec: &Spec, w: Which) {
     dispatch!(w, c19, ctx, id, rng, spec)
+}
+fn c13_case(ctx: &mut Ctx, id: &str, rng: &mut Rng, spec: &Spec, w: Which) {
+    dispatch!(w, c13_columns, ctx, id, rng, spec)
 }
 
 // ------------------------------------------------------------------------------------------------
@@ -914,6 +918,33 @@ fn c03<S: Lc>(ctx: &mut Ctx, id: &str, rng: &mut Rng, spec: &Spec) {
             ctx.rep.expect_fail(&cid, &format!("lincode/malformed-accepted/{}/{:?}", S::NAME, m), "a proof with a changed component was accepted", replay::<S>(&cid, ctx.seed, spec, &describe(run)));
         }
         ctx.rep.case(&format!("{} shape mutation {:?}", describe(run), m), Some(format!("{}/shape/{:?}/{:?}/{}", S::NAME, m, spec.sizes, spec.wf)));
+    }
+}
+
+/// C13: the verifier insists on EXACTLY t authenticated columns at the transcript positions — an honest
+/// proof (true values!) with columns or paths removed, added, repeated or shifted is not accepted.
+fn c13_columns<S: Lc>(ctx: &mut Ctx, id: &str, rng: &mut Rng, spec: &Spec) {
+    let c = match new_case::<S>(ctx, id, rng, spec) {
+        Some(c) => c,
+        None => return,
+    };
+    let run = &c.run;
+    let other = other_run::<S>(rng, run, spec);
+    let np = run.proof.len();
+    for m in [Mu::ColsFewer, Mu::ColsNone, Mu::ColsMore, Mu::ColsRepeat, Mu::ColsShift, Mu::PathsFewer, Mu::PathsNone, Mu::PathsMore] {
+        let k = range(rng, 0, np - 1);
+        let proof = match mutate::<S>(rng, run, other.as_ref(), k, m) {
+            Some(p) => p,
+            None => continue,
+        };
+        let cid = format!("{}/columns-{:?}", id, m);
+        let out = decide::<S>(ctx, &cid, &run.pp, &run.comms, &run.point, &run.values, &proof, &run.pre);
+        if out.accepted() && !harmless(m) {
+            ctx.rep.expect_fail(&cid, &format!("lincode/column-count-not-enforced/{}/{:?}", S::NAME, m),
+                "a proof that does not carry exactly t columns with their paths at the transcript positions was accepted",
+                replay::<S>(&cid, ctx.seed, spec, &describe(run)));
+        }
+        ctx.rep.case(&format!("{} column mutation {:?}", describe(run), m), Some(format!("{}/columns/{:?}/{:?}/{}", S::NAME, m, spec.sizes, spec.wf)));
     }
 }
 
